@@ -46,7 +46,12 @@ enum Role {
     /// a call arriving in two chunks at two moments, and later two calls in one arrival: whatever
     /// the connection remembers from the slow first call must not hide the second of the pair
     SplitThenPair,
+    /// flooder all of whose calls are oneway
+    FlooderOneway,
+    /// flooder whose calls are oneway, oneway, plain, oneway, ...
+    FlooderMixed,
 }
+const ONEWAY_ROLES: [Role; 4] = [Role::FlooderOneway, Role::FlooderMixed, Role::Single1, Role::Single2];
 const ROLES: [Role; 7] = [Role::Flooder, Role::Single1, Role::Single2, Role::SingleSplit, Role::FlooderWatch, Role::FlooderClose, Role::LateJoiner];
 const SIZE_ROLES: [Role; 6] = [Role::Flooder, Role::FlooderBig, Role::Single1, Role::SingleBig, Role::SingleHuge, Role::SplitThenPair];
 
@@ -175,7 +180,7 @@ impl Fairness {
             max_conns: v["max_conns"].as_u64()? as usize,
             flood: v["flood"].as_u64()? as usize,
             moments: v["moments"].as_u64()? as usize,
-            roles: v["roles"].as_array()?.iter().map(|r| *ROLES.iter().chain(SIZE_ROLES.iter()).find(|x| format!("{x:?}") == r.as_str().unwrap()).unwrap()).collect(),
+            roles: v["roles"].as_array()?.iter().map(|r| *ROLES.iter().chain(SIZE_ROLES.iter()).chain(ONEWAY_ROLES.iter()).find(|x| format!("{x:?}") == r.as_str().unwrap()).unwrap()).collect(),
         })
     }
     /// Pick a moment strictly later than `after`.  Moments are PRE (before the server first runs)
@@ -202,7 +207,7 @@ impl Harness for Fairness {
         // 1. configuration
         let n = 2 + cx.choose(self.max_conns - 1, "connections-2");
         let roles: Vec<Role> = (0..n).map(|_| self.roles[cx.choose(self.roles.len(), "role")]).collect();
-        let is_flooder = |r: &Role| matches!(r, Role::Flooder | Role::FlooderWatch | Role::FlooderClose | Role::FlooderBig);
+        let is_flooder = |r: &Role| matches!(r, Role::Flooder | Role::FlooderWatch | Role::FlooderClose | Role::FlooderBig | Role::FlooderOneway | Role::FlooderMixed);
         if !roles.iter().any(is_flooder) || roles.iter().all(is_flooder) {
             // the statement is about a mix of flooders and single-call clients
             return Verdict::Pass(0);
@@ -252,6 +257,14 @@ impl Harness for Fairness {
                         transitions_planned += 2;
                         cx.goal("streaming-transition");
                         cx.goal("flooder");
+                    }
+                    Role::FlooderOneway | Role::FlooderMixed => {
+                        let kinds: Vec<CK> = (0..self.flood).map(|j| if *r == Role::FlooderMixed && j % 3 == 2 { CK::P } else { CK::O }).collect();
+                        let (bytes, ids) = burst(&kinds);
+                        total_calls += ids.len();
+                        w.sched.push((PRE, Act::Arrive { conn: i, bytes, completes: ids }, false));
+                        cx.goal("flooder");
+                        cx.goal("flood-of-oneway-calls");
                     }
                     Role::FlooderBig => {
                         let kinds: Vec<CK> = (0..self.flood).map(|j| if j % 2 == 0 { CK::P } else { CK::B }).collect();
@@ -490,6 +503,9 @@ pub fn run(tier: Tier) -> i32 {
     // calls that do not fit the receive buffer as it is (it has to grow, once or many times, while
     // the flood goes on)
     plan.push(("sizes/<=3conns/flood5/8moments", Fairness { max_conns: 3, flood: 5, moments: tier.pick(8, 10), roles: SIZE_ROLES.to_vec() }));
+    // floods of oneway calls (no reply to write: a turn of its own kind in the server's loop)
+    plan.push(("oneway-floods/<=3conns/flood5/8moments", Fairness { max_conns: 3, flood: 5, moments: tier.pick(8, 10), roles: ONEWAY_ROLES.to_vec() }));
+    rep.require_goal("flood-of-oneway-calls");
     for (name, h) in plan {
         let cfg = Config { max_wall: wall, ..Default::default() };
         rep.add(explore(name, h.config(), &h, &cfg));
